@@ -96,6 +96,7 @@ pub fn check(rep: &mut Rep, d: Duration, s: Duration) {
     if nt {
         rep.nt(h64(&[dp.0 as u64, dp.1, sp.0 as u64, sp.1]));
     }
+    rep.log_event("frc", || format!("\"d\":\"{}\",\"s\":\"{}\",\"fl\":\"{}\",\"ce\":[\"{}\",\"{}\"],\"rd\":[\"{}\",\"{}\"]", cd, cs, w.fl, w.ce[0], w.ce[1], w.rd[0], w.rd[1]));
     rep.sample("duration", || format!("{}.floor/ceil/round({}) => want floor {} ceil {} round {}", fmt_parts(dp), fmt_parts(sp), w.fl, w.ce[0], w.rd[0]));
     // F1 reaches these calls through either operand or through the intermediate floor read back by ceil
     let f1_applies = dp.0 < -1 || sp.0 < -1 || canon(w.fl).0 < -1;
